@@ -462,6 +462,10 @@ func runC14Loaders(c *Ctx) {
 			}
 			expect(api, "sm2/matching", true, call(s.cert, s.key), w)
 			expect(api, "sm2/other-key", false, call(s.cert, so.key), w)
+			// the key n-d: same public x, negated y
+			neg := mkKey("negated", new(big.Int).Sub(ref.N, s.k.D))
+			negPEM, _ := gx509.WritePrivateKeyToPem(neg.priv(), nil)
+			expect(api, "sm2/negated-key(n-d)", false, call(s.cert, negPEM), w)
 			expect(api, "sm2/swapped-inputs", false, call(s.key, s.cert), w)
 			expect(api, "sm2/cert-chain-leaf-first", true, call(append(append([]byte{}, s.cert...), so.cert...), s.key), w)
 			expect(api, "sm2/cert-chain-other-leaf-first", false, call(append(append([]byte{}, so.cert...), s.cert...), s.key), w)
@@ -479,6 +483,12 @@ func runC14Loaders(c *Ctx) {
 			}
 			expect(api, "matching", true, call(s.cert, s.key, e.cert, e.key), w)
 			expect(api, "sign-key-mismatch", false, call(s.cert, so.key, e.cert, e.key), w)
+			negS := mkKey("negated", new(big.Int).Sub(ref.N, s.k.D))
+			negSPEM, _ := gx509.WritePrivateKeyToPem(negS.priv(), nil)
+			expect(api, "sign-key-negated(n-d)", false, call(s.cert, negSPEM, e.cert, e.key), w)
+			negE := mkKey("negated", new(big.Int).Sub(ref.N, e.k.D))
+			negEPEM, _ := gx509.WritePrivateKeyToPem(negE.priv(), nil)
+			expect(api, "enc-key-negated(n-d)", false, call(s.cert, s.key, e.cert, negEPEM), w)
 			expect(api, "enc-key-mismatch", false, call(s.cert, s.key, e.cert, eo.key), w)
 			expect(api, "keys-swapped", false, call(s.cert, e.key, e.cert, s.key), w)
 			expect(api, "certs-swapped", false, call(e.cert, s.key, s.cert, e.key), w)
